@@ -61,6 +61,22 @@ def _lits(test: ast.AST, var: str) -> Optional[List[str]]:
     return out
 
 
+_TA = _RA = "data"
+_FLD = {}
+
+
+def _accumulator(f, loop):
+    """The local that starts as b'' before the step loop: the payload accumulator."""
+    for st in statements(f.node):
+        if st is loop:
+            break
+        tg = st.targets[0] if isinstance(st, ast.Assign) and len(st.targets) == 1 else st.target if isinstance(st, ast.AnnAssign) else None
+        v = getattr(st, "value", None)
+        if isinstance(tg, ast.Name) and isinstance(v, ast.Constant) and v.value == b"":
+            return tg.id
+    return None
+
+
 def _loop_over(f, attr):
     for st in statements(f.node):
         if isinstance(st, ast.For) and dotted(st.iter) == f"self.{attr}":
@@ -111,6 +127,16 @@ def run(ctx):
     tval = dotted(tl.target.elts[1]) if isinstance(tl.target, ast.Tuple) else None
     rvar = dotted(rl.target.elts[0]) if isinstance(rl.target, ast.Tuple) else None
     rval = dotted(rl.target.elts[1]) if isinstance(rl.target, ast.Tuple) else None
+    global _TA, _RA, _FLD
+    _TA, _RA, _FLD = _accumulator(T, tl), _accumulator(R, rl), {}
+    for st in statements(T.node):
+        tg = st.targets[0] if isinstance(st, ast.Assign) and len(st.targets) == 1 else st.target if isinstance(st, ast.AnnAssign) else None
+        v = getattr(st, "value", None)
+        if isinstance(tg, ast.Name) and isinstance(v, ast.Attribute) and dotted(v.value) == "request" and v.attr in ("uri", "params", "headers", "body"):
+            _FLD[v.attr] = tg.id
+    if _TA is None or _RA is None:
+        ctx.ob("R1", "AGREE", T, "payload accumulator", False, "no local initialised to b'' before the step loop (the payload accumulator) in transform/recover")
+        return
     tt, telse = dispatch(T.node, tl, tvar)
     rt, relse = dispatch(R.node, rl, rvar)
     ctx.rep.count("transform_branches", len(tt), floor=14)
@@ -149,8 +175,8 @@ def r2(ctx, T, R, tt, rt):
             continue
         if step not in tt or step not in rt:
             continue
-        tv = _assigns(tt[step][1], "data")
-        rv = _assigns(rt[step][1], "data")
+        tv = _assigns(tt[step][1], _TA)
+        rv = _assigns(rt[step][1], _RA)
         ok = False
         detail = f"transform data={[src(v) for v in tv]} recover data={[src(v) for v in rv]}"
         if len(tv) == 1 and len(rv) == 1:
@@ -162,8 +188,8 @@ def r2(ctx, T, R, tt, rt):
             ra = re_.args[0] if isinstance(re_, ast.Call) and re_.args else None
             if isinstance(ra, ast.Call) and isinstance(ra.func, ast.Attribute) and ra.func.attr in ("lower", "upper") and not ra.args:
                 pre, ra = ra.func.attr, ra.func.value
-            e_ok = _callee(ctx, T, te) == enc and isinstance(te, ast.Call) and te.args and dotted(te.args[0]) == "data"
-            d_ok = _callee(ctx, R, re_) == dec and ra is not None and "data" in names_in(ra)
+            e_ok = _callee(ctx, T, te) == enc and isinstance(te, ast.Call) and te.args and dotted(te.args[0]) == _TA
+            d_ok = _callee(ctx, R, re_) == dec and ra is not None and _RA in names_in(ra)
             case_ok = True
             if step == "netbios":
                 case_ok = post == "lower" and pre == "upper"
@@ -174,7 +200,7 @@ def r2(ctx, T, R, tt, rt):
             pad_ok = True
             if step in ("base64", "base64url"):
                 # Cobalt Strike emits these without '=' padding: the decoder input must be data + b"==" (>= 2 pad bytes)
-                pad_ok = isinstance(ra, ast.BinOp) and isinstance(ra.op, ast.Add) and dotted(ra.left) == "data" and isinstance(_c(ra.right), bytes) and set(_c(ra.right)) == {0x3D} and len(_c(ra.right)) >= 2
+                pad_ok = isinstance(ra, ast.BinOp) and isinstance(ra.op, ast.Add) and dotted(ra.left) == _RA and isinstance(_c(ra.right), bytes) and set(_c(ra.right)) == {0x3D} and len(_c(ra.right)) >= 2
             ok = e_ok and d_ok and case_ok and pad_ok
             detail = f"encoder {_callee(ctx, T, te)} (required {enc}) on data={e_ok}; decoder {_callee(ctx, R, re_)} (required {dec})={d_ok}; case handling post={post} pre={pre} ok={case_ok}; padding repaired before decoding={pad_ok}"
         ctx.ob("R2", "AGREE", T, f"pair {step}", ok, detail, tt[step][0])
@@ -188,18 +214,16 @@ def r2(ctx, T, R, tt, rt):
 def r3(ctx, T, R, tt, rt, tval, rval):
     http = params(R.node)[1]
     # transform locals bound from the request and returned under the same names
-    loc = {}
-    for name in ("uri", "params", "headers", "body"):
-        d = [v for st, v in assignments_to(T.node, name) if v is not None and dotted(v) == f"request.{name}"]
-        loc[name] = bool(d)
+    loc = {name: (name in _FLD) for name in ("uri", "params", "headers", "body")}
     rets = [s for s in statements(T.node) if isinstance(s, ast.Return)]
     ret_ok = False
     if len(rets) == 1 and isinstance(rets[0].value, ast.Call) and isinstance(rets[0].value.func, ast.Attribute) and rets[0].value.func.attr == "_replace":
         kws = {k.arg: dotted(k.value) for k in rets[0].value.keywords}
-        ret_ok = all(kws.get(n) == n for n in ("uri", "params", "headers", "body"))
+        ret_ok = all(kws.get(n) == _FLD.get(n) for n in ("uri", "params", "headers", "body"))
     ctx.ob("R3", "AGREE", T, "request fields", all(loc.values()) and ret_ok, f"locals initialised from the request {loc}; returned under their own names={ret_ok}")
     want_t = {"print": ("body", None), "header": ("headers", tval), "parameter": ("params", tval), "uri_append": ("uri", None)}
-    for step, (field, key) in want_t.items():
+    for step, (fname, key) in want_t.items():
+        field = _FLD.get(fname, fname)
         if step not in tt or step not in rt:
             continue
         node, body = tt[step]
@@ -210,32 +234,33 @@ def r3(ctx, T, R, tt, rt, tval, rval):
                 if isinstance(n, ast.Assign):
                     t = n.targets[0]
                     wrote.append(src(n))
-                    if key is None and dotted(t) == field and (dotted(n.value) == "data" or (step == "uri_append" and isinstance(n.value, ast.BinOp) and dotted(n.value.left) == field and dotted(n.value.right) == "data")):
+                    if key is None and dotted(t) == field and (dotted(n.value) == _TA or (step == "uri_append" and isinstance(n.value, ast.BinOp) and dotted(n.value.left) == field and dotted(n.value.right) == _TA)):
                         ok_t = True
-                    if key is not None and isinstance(t, ast.Subscript) and dotted(t.value) == field and dotted(t.slice) == key and dotted(n.value) == "data":
+                    if key is not None and isinstance(t, ast.Subscript) and dotted(t.value) == field and dotted(t.slice) == key and dotted(n.value) == _TA:
                         ok_t = True
-                elif isinstance(n, ast.AugAssign) and step == "uri_append" and dotted(n.target) == field and isinstance(n.op, ast.Add) and dotted(n.value) == "data":
+                elif isinstance(n, ast.AugAssign) and step == "uri_append" and dotted(n.target) == field and isinstance(n.op, ast.Add) and dotted(n.value) == _TA:
                     ok_t = True
                     wrote.append(src(n))
-        rv = _assigns(rt[step][1], "data")
+        rv = _assigns(rt[step][1], _RA)
         ok_r = False
         if len(rv) == 1:
             v = rv[0]
             if key is None:
-                ok_r = dotted(v) == f"{http}.{field}"
+                ok_r = dotted(v) == f"{http}.{fname}"
             else:
-                ok_r = isinstance(v, ast.Subscript) and dotted(v.value) == f"{http}.{field}" and dotted(v.slice) == rval
+                ok_r = isinstance(v, ast.Subscript) and dotted(v.value) == f"{http}.{fname}" and dotted(v.slice) == rval
         ctx.ob("R3", "AGREE", T, f"placement {step}", ok_t and ok_r,
-               f"transform writes the payload to {field}{'[arg]' if key else ''}={ok_t} ({wrote}); recover reads {[src(x) for x in rv]} from the same place={ok_r}", node)
+               f"transform writes the payload to {fname}{'[arg]' if key else ''}={ok_t} ({wrote}); recover reads {[src(x) for x in rv]} from the same place={ok_r}", node)
 
 
 def r4(ctx, T, R, tt, rt, tval):
-    for step, field, sep in (("_header", "headers", b": "), ("_hostheader", "headers", b": "), ("_parameter", "params", b"=")):
+    for step, fname, sep in (("_header", "headers", b": "), ("_hostheader", "headers", b": "), ("_parameter", "params", b"=")):
+        field = _FLD.get(fname, fname)
         if step not in tt:
             ctx.ob("R4", "TAINT", T, f"decoration {step}", False, f"transform has no branch for {step}")
             continue
         node, body = tt[step]
-        reads_data = any(isinstance(n, ast.Name) and n.id == "data" and isinstance(n.ctx, ast.Load) for s in body for n in ast.walk(s))
+        reads_data = any(isinstance(n, ast.Name) and n.id == _TA and isinstance(n.ctx, ast.Load) for s in body for n in ast.walk(s))
         shared_with = sorted(k for k, (n2, _b) in tt.items() if n2 is node and not k.startswith("_"))
         wrote_ok = False
         seps = []
@@ -249,10 +274,10 @@ def r4(ctx, T, R, tt, rt, tval):
                     seps.append(_c(n.args[0]))
         ok = not reads_data and not shared_with and wrote_ok and seps == [sep]
         ctx.ob("R4", "TAINT", T, f"decoration {step}", ok,
-               f"static decoration: reads the payload accumulator={reads_data}; shares a branch with payload steps {shared_with}; writes {field}[key]=value from its own argument={wrote_ok}; splits at {seps} (required [{sep!r}])", node)
+               f"static decoration: reads the payload accumulator={reads_data}; shares a branch with payload steps {shared_with}; writes {fname}[key]=value from its own argument={wrote_ok}; splits at {seps} (required [{sep!r}])", node)
         if step in rt:
             rnode, rbody = rt[step]
-            sets = bool(_assigns(rbody, "data"))
+            sets = bool(_assigns(rbody, _RA))
             shared_r = sorted(k for k, (n2, _b) in rt.items() if n2 is rnode and not k.startswith("_"))
             ctx.ob("R4", "TAINT", R, f"decoration {step}", not sets and not shared_r, f"recover must skip the decoration: assigns data={sets}; shares a branch with {shared_r}", rnode)
         else:
@@ -273,10 +298,10 @@ def _part_src(fn, body, expr):
 
 def r5(ctx, T, R, tt, rt, tval, rval):
     # transform sides
-    for step, left, right in (("append", "data", tval), ("prepend", tval, "data")):
+    for step, left, right in (("append", _TA, tval), ("prepend", tval, _TA)):
         if step not in tt:
             continue
-        vs = _assigns(tt[step][1], "data")
+        vs = _assigns(tt[step][1], _TA)
         ok = len(vs) == 1 and isinstance(vs[0], ast.BinOp) and isinstance(vs[0].op, ast.Add) and dotted(vs[0].left) == left and dotted(vs[0].right) == right
         ctx.ob("R5", "AGREE", T, f"{step} side", ok, f"transform {step}: data = {[src(v) for v in vs]} (required {left} + {right})", tt[step][0])
         # int filler: b"X" * n
@@ -285,16 +310,16 @@ def r5(ctx, T, R, tt, rt, tval, rval):
         ctx.ob("R5", "AGREE", T, f"{step} int filler", f_ok, f"integer arguments become a filler of that many bytes: {[src(v) for v in fills]}", tt[step][0], nontrivial=False)
     # recover slices
     if "prepend" in rt:
-        vs = _assigns(rt["prepend"][1], "data")
-        ok = len(vs) == 1 and isinstance(vs[0], ast.Subscript) and isinstance(vs[0].slice, ast.Slice) and dotted(vs[0].value) == "data" \
+        vs = _assigns(rt["prepend"][1], _RA)
+        ok = len(vs) == 1 and isinstance(vs[0], ast.Subscript) and isinstance(vs[0].slice, ast.Slice) and dotted(vs[0].value) == _RA \
             and dotted(vs[0].slice.lower) == rval and vs[0].slice.upper is None and vs[0].slice.step is None
         ctx.ob("R5", "AGREE", R, "prepend slice", ok, f"recover prepend: data = {[src(v) for v in vs]} (required data[n:])", rt["prepend"][0])
     if "append" in rt:
         node, body = rt["append"]
-        vs = _assigns(body, "data")
+        vs = _assigns(body, _RA)
         ok = False
         detail = f"recover append: data = {[src(v) for v in vs]}"
-        if len(vs) == 1 and isinstance(vs[0], ast.Subscript) and isinstance(vs[0].slice, ast.Slice) and dotted(vs[0].value) == "data":
+        if len(vs) == 1 and isinstance(vs[0], ast.Subscript) and isinstance(vs[0].slice, ast.Slice) and dotted(vs[0].value) == _RA:
             sl = vs[0].slice
             lo_ok = sl.lower is None or is_const(sl.lower, 0)
             up = sl.upper
@@ -307,7 +332,7 @@ def r5(ctx, T, R, tt, rt, tval, rval):
                     ok = bool(nonzero)
                     detail = (f"recover append drops the last n bytes with data[:-{src(up.operand)}]; n has interval [0, +inf) (length of the "
                               f"append argument, may be empty) and `data[:-0]` is the empty string, not data" + ("; guarded by a truthiness test" if ok else ""))
-                elif isinstance(up, ast.BinOp) and isinstance(up.op, ast.Sub) and isinstance(up.left, ast.Call) and dotted(up.left.func) == "len" and dotted(up.left.args[0]) == "data" and dotted(up.right) == rval:
+                elif isinstance(up, ast.BinOp) and isinstance(up.op, ast.Sub) and isinstance(up.left, ast.Call) and dotted(up.left.func) == "len" and dotted(up.left.args[0]) == _RA and dotted(up.right) == rval:
                     ok = True
                     detail = f"recover append keeps data[:len(data) - n] - correct for n = 0"
                 else:
@@ -325,20 +350,23 @@ def r6(ctx, T, R, tt, rt):
     if "mask" not in tt or "mask" not in rt:
         return
     node, body = tt["mask"]
-    mk = _assigns(body, "mask")
     size = None
-    if len(mk) == 1 and isinstance(mk[0], ast.Call):
-        cal = ctx.rs.resolve_call(T, mk[0])
-        if cal.kind == "func" and cal.func.fq == "utils.pack":
-            size = _c(cal.bound.get("size"))
-    dv = _assigns(body, "data")
-    t_ok = len(dv) == 1 and isinstance(dv[0], ast.BinOp) and isinstance(dv[0].op, ast.Add) and dotted(dv[0].left) == "mask" and isinstance(dv[0].right, ast.Call) \
-        and _callee(ctx, T, dv[0].right) == "utils.xor" and [dotted(a) for a in dv[0].right.args] == ["data", "mask"]
-    rv = _assigns(rt["mask"][1], "data")
+    mk_name = None
+    for s2 in body:
+        for n2 in ast.walk(s2):
+            if isinstance(n2, ast.Assign) and isinstance(n2.value, ast.Call) and isinstance(n2.targets[0], ast.Name):
+                cal = ctx.rs.resolve_call(T, n2.value)
+                if cal.kind == "func" and cal.func.fq == "utils.pack":
+                    size = _c(cal.bound.get("size"))
+                    mk_name = n2.targets[0].id
+    dv = _assigns(body, _TA)
+    t_ok = len(dv) == 1 and isinstance(dv[0], ast.BinOp) and isinstance(dv[0].op, ast.Add) and dotted(dv[0].left) == mk_name and isinstance(dv[0].right, ast.Call) \
+        and _callee(ctx, T, dv[0].right) == "utils.xor" and [dotted(a) for a in dv[0].right.args] == [_TA, mk_name]
+    rv = _assigns(rt["mask"][1], _RA)
     r_ok, split = False, None
     if len(rv) == 1 and isinstance(rv[0], ast.Call) and _callee(ctx, R, rv[0]) == "utils.xor" and len(rv[0].args) == 2:
         a, b = rv[0].args
-        if isinstance(a, ast.Subscript) and isinstance(b, ast.Subscript) and isinstance(a.slice, ast.Slice) and isinstance(b.slice, ast.Slice) and dotted(a.value) == dotted(b.value) == "data":
+        if isinstance(a, ast.Subscript) and isinstance(b, ast.Subscript) and isinstance(a.slice, ast.Slice) and isinstance(b.slice, ast.Slice) and dotted(a.value) == dotted(b.value) == _RA:
             lo, hi = _c(a.slice.lower), _c(b.slice.upper)
             r_ok = lo == hi and a.slice.upper is None and b.slice.lower is None
             split = lo
@@ -355,7 +383,7 @@ def r7(ctx, T, R, tt, rt, tval, rval):
             if isinstance(s, ast.If):
                 for l, op, r in compare_parts(s.test):
                     if isinstance(op, ast.Eq) and dotted(l) == tval and isinstance(_c(r), str):
-                        v = _assigns(s.body, "data")
+                        v = _assigns(s.body, _TA)
                         if len(v) == 1:
                             e = v[0].values[0] if isinstance(v[0], ast.BoolOp) else v[0]
                             sel[_c(r)] = dotted(e)
@@ -369,7 +397,7 @@ def r7(ctx, T, R, tt, rt, tval, rval):
                 for l, op, r in compare_parts(s.test):
                     if isinstance(op, ast.Eq) and dotted(l) == rval and isinstance(_c(r), str):
                         for n in s.body:
-                            if isinstance(n, ast.Assign) and dotted(n.value) == "data":
+                            if isinstance(n, ast.Assign) and dotted(n.value) == _RA:
                                 sel[_c(r)] = dotted(n.targets[0])
         rets = [s for s in statements(R.node) if isinstance(s, ast.Return)]
         r_ok = True
